@@ -60,6 +60,10 @@ type WSUT struct {
 // ZeroDeadline: configuration marker for a deadline limiter built with the zero time.Time (a deadline long past)
 const ZeroDeadline = -(int64(1) << 62)
 
+// FarDeadline: marker for a deadline limiter built with a deadline centuries away (time.Date(9999, ...): beyond what int64 nanoseconds since
+// 1970 can express); the model gets a deadline 2^61 ns after the start, which no scenario reaches either
+const FarDeadline = int64(1) << 61
+
 // NewWSUT must be called inside a synctest bubble.
 func NewWSUT(c WCfg) (*WSUT, error) {
 	rawB := int(c.MaxB)
@@ -93,6 +97,8 @@ func NewWSUT(c WCfg) (*WSUT, error) {
 	case "deadline":
 		if c.Deadline == ZeroDeadline {
 			w.Lim = limiter.NewDeadlineLimiter(d, time.Time{}, nil)
+		} else if c.Deadline == FarDeadline {
+			w.Lim = limiter.NewDeadlineLimiter(d, time.Date([]int{9999, 2300, 2263}[int(c.Limit)%3], 12, 31, 0, 0, 0, 0, time.UTC), nil)
 		} else {
 			w.Lim = limiter.NewDeadlineLimiter(d, time.Unix(0, w.Absdl), nil)
 		}
